@@ -263,7 +263,7 @@ func c05Run(ctx context.Context, pool *hx.Pool, c *c05Case, cur, des *sqSchema, 
 	}
 	if err := drv.ApplyChanges(ctx, changes); err != nil {
 		es := err.Error()
-		if strings.Contains(es, "constraint failed") || strings.Contains(es, "cannot store") || strings.Contains(es, "datatype mismatch") || strings.Contains(es, "type mismatch on DEFAULT") {
+		if strings.Contains(es, "constraint failed") || strings.Contains(es, "cannot store") || strings.Contains(es, "datatype mismatch") {
 			return "data: rows do not satisfy the desired constraints", touched, viols
 		}
 		add("failing-input", "apply-fails", fmt.Sprintf("apply fails: %v\nplan:\n%s\ncurrent:\n%s\ndesired:\n%s", trunc(es, 300), planText(plan), strings.Join(c.Current, ";\n"), strings.Join(c.Desired, ";\n")), "Props.C05 apply")
